@@ -112,6 +112,13 @@ def directed_cases():
          [("eff", "eff", "u", "v", ("seq", L(P(0)), ("return", add(P(0), I_(1))))),
           ("three", "three", "u", "vvv", ("return", sub(add(P(0), P(2)), P(1))))],
          [L(("call", "three", (("call", "eff", (I_(10),)), ("call", "eff", (I_(20),)), ("call", "eff", (("call", "eff", (I_(30),)),)))))])
+    # a recursive routine owns a local that it passes BY REFERENCE to a non-recursive helper and reads again after its re-entrant call:
+    # the address-taken local must still be spilled around the recursion
+    case("rec-local-byref-helper",
+         [("bump", "bump", "n", "r", ("refstore", 0, add(("refload", 0, "u"), I_(1)))),
+          ("f", "f", "u", "v", ("seq", st("loc", ("nary", "*", "u", (P(0), I_(10)))), ("call", "bump", (("varref", "loc"),)),
+                                ("if", eq(P(0), I_(0)), ("return", I_(0)), ("return", add(("call", "f", (sub(P(0), I_(1)),)), ld("loc"))))))],
+         [L(("call", "f", (I_(2),))), L(sub(I_(100), ("call", "f", (I_(1),))))])
     # bytes-returning routine, zero arguments, odd name
     case("bytes-noargs",
          [("greet", "say hi!", "b", "", ("return", ("nary", "concat", "b", (("op", "byte", ("0x6869",), "b", ()), ("op", "itob", (), "b", (I_(7),))))))],
@@ -251,7 +258,7 @@ def main(argv):
     # 2. directed call shapes over the whole version/option matrix
     for name, prep, mainr in directed_cases():
         for version in ([4, 5, 6, 7, 8, 9, 10] if thorough else [5, 6, 8, 9, 10]):
-            if version < 5 and name.startswith("byref"):
+            if version < 5 and ("byref" in name):
                 continue
             for ss in (None, True, False):
                 for fp in ((None, False, True) if version >= 8 else (None,)):
